@@ -1,4 +1,5 @@
 """C01 — bytes from the peer can never crash or wedge a master or an outstation (panic-freedom part)."""
+import json
 import os
 
 from engine import *
@@ -85,6 +86,46 @@ def load_reviewed():
         fn_, kind, sig, requires, why, callers = parts[:6]
         out[(fn_, kind, sig)] = (requires, why, callers)
     return out
+
+
+def load_reviewed_erased():
+    """(function, kind, name-erased signature) -> exact key, from column 7 of the table (bin/gen_c01_erased.py fills it from the
+    reviewed tree). A site whose exact key is unknown but whose name-erased signature is that of a reviewed site in the same function
+    is that site after a rename of a local / parameter or after its loop variable became a pattern binding."""
+    out = {}
+    p = os.path.join(VERIF, "tables", "c01_reviewed.tsv")
+    for line in open(p):
+        if line.startswith("#") or not line.strip():
+            continue
+        parts = line.rstrip("\n").split("\t")
+        if len(parts) >= 7 and parts[6]:
+            k = (parts[0], parts[1], parts[6])
+            out.setdefault(k, []).append((parts[0], parts[1], parts[2]))
+    return out
+
+
+def erase_names(e, names):
+    """e with every variable / parameter / capture replaced by a placeholder numbered by first occurrence, and the payload of a
+    downcast variable (`v@Some.0`) taken for the variable itself."""
+    if not isinstance(e, tuple) or not e:
+        return e
+    if e[0] == "field" and len(e) == 3 and e[2] == "0" and isinstance(e[1], tuple) and e[1][0] == "variant" and isinstance(e[1][1], tuple) and e[1][1][0] in ("var", "param", "capture"):
+        return erase_names(e[1][1], names)
+    if e[0] in ("try", "mutated") and len(e) == 2 and isinstance(e[1], tuple) and e[1][0] in ("var", "param", "capture"):
+        return erase_names(e[1], names)
+    if e[0] in ("var", "param", "capture") and len(e) == 2:
+        if e[1] == "self":
+            return e
+        k = (e[0], e[1])
+        if k not in names:
+            names[k] = "$%d" % (len(names) + 1)
+        return ("var", names[k])
+    return tuple(erase_names(x, names) if isinstance(x, tuple) else x for x in e)
+
+
+def erased_sig(exprs):
+    names = {}
+    return ", ".join(expr_str(erase_names(e, names))[:70] for e in exprs)
 
 
 # ---------------------------------------------------------------------------------------------
@@ -321,15 +362,43 @@ def r1(ctx):
     prog = ctx.prog
     cg = prog.callgraph
     roots, spawn_sites = entry_roots(ctx)
-    if len(roots) < 20 or len(spawn_sites) < 12:
-        raise AnchorError("expected >= 12 tokio::spawn sites with >= 20 root bodies, found %d / %d" % (len(spawn_sites), len(roots)))
+    # counted: 13 spawn sites / 40+ roots with default features; 9 / 34 without them (no TLS, no serial) in the configuration sweep
+    min_sites = 8 if getattr(ctx, "sweep", False) else 12
+    if len(roots) < 20 or len(spawn_sites) < min_sites:
+        raise AnchorError("expected >= %d tokio::spawn sites with >= 20 root bodies, found %d / %d" % (min_sites, len(spawn_sites), len(roots)))
     reach = cg.reachable_from(sorted(roots))
     local = sorted(p for p in reach if p in prog.bodies and "::tests::" not in p and "::test::" not in p)
     reviewed = load_reviewed()
+    reviewed_erased = load_reviewed_erased()
+    dump = []
     used = set()
     n_assert = n_api = 0
     ext = set(p for p in reach if p not in prog.bodies)
     counts = {}
+    pending = []
+
+    def accept(ent, key, p, bd, blk, via=None):
+        requires, why, callers_rx = ent
+        if callers_rx:
+            # the invariant is an argument about who calls this function: the caller set is frozen
+            decl = None
+            for im in prog.impls:
+                for nm_, ip_, tg_ in im["items"]:
+                    if ip_ == p and im.get("trait"):
+                        decl = im["trait"] + "::" + nm_
+            who = {c_[0] for c_ in cg.callers_of(lambda c_, p=p, decl=decl: c_ == p or (decl is not None and c_ == decl)) if "::tests::" not in c_[0]}
+            badc = sorted(w for w in who if not re.search(callers_rx, w))
+            if badc:
+                ctx.bad("site@%s|%s|%s" % key, "reviewed invariant rests on the caller set /%s/ but it is also called from %s" % (callers_rx, [short(x) for x in badc]), bd.where(blk.idx))
+                return
+        if requires:
+            gs = " ; ".join(repr(g) for g in ctx.guards_at(bd, blk.idx))
+            if not re.search(requires, gs):
+                ctx.bad("site@%s|%s|%s" % key, "reviewed invariant needs a dominating guard /%s/ which is gone (guards now: %s)" % (requires, gs[:200]), bd.where(blk.idx))
+                return
+        used.add(key)
+        ctx.ok("site@%s|%s|%s" % key, "reviewed%s: %s" % (" (as %s, names erased)" % via[2] if via else "", why), bd.where(blk.idx))
+
     for p in local:
         bd = prog.bodies[p]
         live = bd.live_blocks()
@@ -346,7 +415,9 @@ def r1(ctx):
                 sym = sym or ctx.sym(bd)
                 status, detail = discharge_assert(ctx, bd, blk)
                 kind = t.d["mk"]
-                sig = sig_of([sym.operand_expr(o) for o in t.d["ops"]])
+                sig_exprs = [sym.operand_expr(o) for o in t.d["ops"]]
+                sig = sig_of(sig_exprs)
+                esig = erased_sig(sig_exprs)
                 if status == "auto":
                     ctx.ok("assert@%s|%s|%s" % (nice(p), kind, sig), "auto: " + detail, bd.where(blk.idx))
                     continue
@@ -370,6 +441,7 @@ def r1(ctx):
                 e = sym.call_expr(t)
                 args = e[2] if e[0] == "call" else ()
                 sig = short(c) + "(" + sig_of(args) + ")"
+                esig = short(c) + "(" + erased_sig(args) + ")"
                 detail = "call of %s" % short(c)
                 if kind == "unwrap" and args:
                     recv = args[0]
@@ -400,33 +472,33 @@ def r1(ctx):
                 if pe is not None and not pe[0] and not pe[2]:
                     ent = pe
                     used.add(pk)
-            if ent is not None:
-                requires, why, callers_rx = ent
-                if callers_rx:
-                    # the invariant is an argument about who calls this function: the caller set is frozen
-                    tail = p.split("::")[-1]
-                    decl = None
-                    for im in prog.impls:
-                        for nm_, ip_, tg_ in im["items"]:
-                            if ip_ == p and im.get("trait"):
-                                decl = im["trait"] + "::" + nm_
-                    who = {c_[0] for c_ in cg.callers_of(lambda c_, p=p, decl=decl: c_ == p or (decl is not None and c_ == decl)) if "::tests::" not in c_[0]}
-                    badc = sorted(w for w in who if not re.search(callers_rx, w))
-                    if badc:
-                        ctx.bad("site@%s|%s|%s" % key, "reviewed invariant rests on the caller set /%s/ but it is also called from %s" % (callers_rx, [short(x) for x in badc]), bd.where(blk.idx))
-                        continue
-                if requires:
-                    gs = " ; ".join(repr(g) for g in ctx.guards_at(bd, blk.idx))
-                    if not re.search(requires, gs):
-                        ctx.bad("site@%s|%s|%s" % key, "reviewed invariant needs a dominating guard /%s/ which is gone (guards now: %s)" % (requires, gs[:200]), bd.where(blk.idx))
-                        continue
-                used.add(key)
-                ctx.ok("site@%s|%s|%s" % key, "reviewed: " + why, bd.where(blk.idx))
-            else:
-                ctx.bad("site@%s|%s|%s" % key, "panic site reachable from a spawned task is neither auto-discharged (%s) nor reviewed" % detail, bd.where(blk.idx))
+            dump.append((nice(p), kind, sig, esig))
+            if ent is None:
+                pending.append((p, bd, blk, kind, sig, esig, key, detail, nice(parent_) if "::{closure#" in p else None))
+                continue
+            accept(ent, key, p, bd, blk)
+    # exact misses: a renamed local / parameter, or a loop variable that became a pattern binding - same function, same kind, same
+    # signature once names are erased, and the reviewed site is not itself still present (so a second, new, site of the same shape
+    # is not taken for it)
+    for p, bd, blk, kind, sig, esig, key, detail, par in pending:
+        cands = []
+        for fn_ in [nice(p)] + ([par] if par else []):
+            cands += [k_ for k_ in reviewed_erased.get((fn_, kind, esig), []) if k_ in reviewed and k_ not in used and (fn_ == nice(p) or (not reviewed[k_][0] and not reviewed[k_][2]))]
+        if cands:
+            used.add(cands[0])
+            accept(reviewed[cands[0]], key, p, bd, blk, via=cands[0])
+        else:
+            ctx.bad("site@%s|%s|%s" % key, "panic site reachable from a spawned task is neither auto-discharged (%s) nor reviewed" % detail, bd.where(blk.idx))
     ctx.note("entry bodies %d (from %d tokio::spawn sites); reachable local bodies %d; external callees trusted not to panic %d; asserts %d; panic-API calls %d" % (len(roots), len(spawn_sites), len(local), len(ext), n_assert, n_api))
     for k in sorted(set(reviewed) - used):
         ctx.note("stale reviewed entry: %s" % (k,))
+    if os.environ.get("VERIF_C01_DUMP"):
+        # bin/gen_c01_erased.py: merged over the configurations a run analyses
+        prev = []
+        if os.path.exists(os.environ["VERIF_C01_DUMP"]):
+            prev = json.load(open(os.environ["VERIF_C01_DUMP"]))
+        with open(os.environ["VERIF_C01_DUMP"], "w") as f:
+            json.dump(prev + [list(x) for x in dump], f)
     if n_assert < 90 or n_api < 35:
         raise AnchorError("census too small: %d asserts, %d panic-API calls" % (n_assert, n_api))
 
